@@ -124,6 +124,17 @@ Section SW.
       rewrite segslen_app. rewrite <- Epos. rewrite <- !app_assoc. do 2 f_equal; try lia.
   Qed.
 
+  Lemma untouched_elems t : sw_untouched t = true -> forall xs o, Forall (fun x => wt t x = true) xs ->
+    F (lay_elems layout t xs o) = N (lay_elems layout t xs o) /\ segslen (lay_elems layout t xs o) = len xs.
+  Proof.
+    intros Hb xs. induction xs as [|x xr IH]; intros o Hw; [rewrite lay_elems_nil; split; reflexivity|].
+    inversion Hw as [|? ? Hx Hr]; subst. rewrite lay_elems_cons, !render_app, segslen_app, len_cons.
+    destruct (IH (o + segslen (layout t x o)) Hr) as [I1 I2]. rewrite I1, I2.
+    destruct t as [k| | | |]; try discriminate Hb; destruct x; try discriminate Hx; cbn [layout]; rewrite !render_one; cbn [render_seg segslen fold_right seglen].
+    - cbn [sw_untouched] in Hb. change (pc_builtin_size k) with (sk_size k) in Hb. apply Z.eqb_eq in Hb. rewrite Hb, enc_flip_1. split; [reflexivity|lia].
+    - rewrite enc_flip_1. split; [reflexivity|lia].
+  Qed.
+
   Lemma sw_n_rt dyn t : swP t -> legal t = true -> stiffness t <> Unlimited -> kfc_free t = true ->
     (dyn = false -> is_fixed t = true) ->
     forall xs pre post, Forall (fun x => wt t x = true) xs -> len pre mod align t = 0 ->
@@ -131,6 +142,8 @@ Section SW.
     = Some (pre ++ N (lay_elems layout t xs (len pre)) ++ post, len pre + segslen (lay_elems layout t xs (len pre))).
   Proof.
     intros HP Hl Hu Hk Hfx xs pre post Hw Ha. unfold sw_n.
+    destruct (sw_untouched t) eqn:Eb.
+    { destruct (untouched_elems t Eb xs (len pre) Hw) as [U1 U2]. rewrite U1, U2. reflexivity. }
     pose proof (elems_at_least t Hl (layout_nonempty t Hl Hu) xs (len pre) Hw Ha) as Hge.
     destruct (elems_len t (layout_lengths t) Hl xs Hw (len pre) Ha) as [L1 _].
     pose proof (len_nonneg xs) as Hx. pose proof (len_nonneg pre) as Hp. pose proof (len_nonneg post) as Hq.
